@@ -1,0 +1,7 @@
+//go:build !verif
+
+package udp
+
+// verifLateTXTimestamp is a failpoint of the "verif" build (see hooks_verif.go);
+// in a normal build it is a constant.
+func verifLateTXTimestamp() bool { return false }
